@@ -37,7 +37,7 @@ class JobResult:
         self.reached = 0               # paths that reached at least one obligation (vacuity guard)
 
     def as_dict(self):
-        return dict(self.__dict__)
+        return {k: v for k, v in self.__dict__.items() if not k.startswith("_")}
 
 
 def _profile_functions(body, repo_root):
@@ -68,6 +68,7 @@ def explore(name, body, max_paths=200000, max_seconds=600.0, repo_root="/repo",
     t0 = time.time()
     stats = Stats()
     jr = JobResult(name)
+    jr._history = []            # concrete replay vectors of all earlier paths of this job (for history-dependent failures)
     prefix = []
     first = True
     while True:
@@ -95,6 +96,8 @@ def explore(name, body, max_paths=200000, max_seconds=600.0, repo_root="/repo",
             jr.cut += 1
         else:
             _settle(jr, body, res, obs, c, n_samples, sample_keys, counters)
+            if res.values is not None:
+                jr._history.append(res.values)
         prefix = next_prefix(trace)
         if prefix is None:
             jr.exhausted = True
@@ -197,8 +200,11 @@ def _settle(jr, body, res, obs, c, n_samples, sample_keys, counters):
 
 
 def _viol(jr, obligation, values, info, notes):
-    return {"job": jr.name, "obligation": obligation, "values": values,
-            "info": _short(info), "notes": _short(plain(notes))}
+    v = {"job": jr.name, "obligation": obligation, "values": values,
+         "info": _short(info), "notes": _short(plain(notes))}
+    if not jr.violations:        # the first violation of a job carries the job's call history so far
+        v["history"] = list(jr._history[-20000:])
+    return v
 
 
 def _short(x, limit=600):
